@@ -349,8 +349,125 @@ class _Graph:
 
 
 class XInterp(Interp):
+    """the shared interpreter silently returns an opaque value beyond its call depth (6); on the model every call is
+    executed (own bound of 80 nested calls, beyond it: AnalysisError), dict comprehensions are evaluated"""
+    _xdepth = 0
+
+    def call_function(self, func, args, kwargs=None, recv=None):
+        self._xdepth += 1
+        if self._xdepth > 80:
+            self._xdepth -= 1
+            raise AnalysisError("model run: more than 80 nested calls (at %s)" % func.qualname)
+        saved = self.depth
+        self.depth = 0
+        try:
+            return super().call_function(func, args, kwargs, recv)
+        finally:
+            self.depth = saved
+            self._xdepth -= 1
+
+    def eval(self, e, env, func):
+        if isinstance(e, ast.DictComp):
+            return self._dictcomp(e, env, func)
+        if isinstance(e, ast.Set):
+            out = set()
+            for x in e.elts:
+                v = self.eval(x, env, func)
+                if isinstance(v, Bits) and v.is_const():
+                    v = v.value()
+                try:
+                    out.add(v)
+                except TypeError:
+                    raise Raised("TypeError", e, "unhashable")
+            return out
+        return super().eval(e, env, func)
+
+    def _dictcomp(self, e, env, func):
+        out = {}
+
+        def rec(i, env2):
+            if i == len(e.generators):
+                k = self.eval(e.key, env2, func)
+                if isinstance(k, Bits) and k.is_const():
+                    k = k.value()
+                try:
+                    hash(k)
+                except TypeError:
+                    raise AnalysisError("%s: unhashable key in a dict comprehension" % func.loc(e))
+                out[k] = self.eval(e.value, env2, func)
+                return
+            g = e.generators[i]
+            seq = self.concrete_iter(self.eval(g.iter, env2, func))
+            if seq is None:
+                raise AnalysisError("%s: dict comprehension over a symbolic sequence (%s)" % (func.loc(e), ast.unparse(g.iter)[:60]))
+            for item in seq:
+                env3 = dict(env2)
+                self.assign(g.target, item, env3, func)
+                if all(self.truth(self.eval(c, env3, func), c, func) for c in g.ifs):
+                    rec(i + 1, env3)
+        rec(0, dict(env))
+        return out
+
     def unknown(self, v, node, func):
         raise AnalysisError("%s: condition %s does not evaluate on the model (%s)" % (func.loc(node), ast.unparse(node)[:80], show(v)[:80]))
+
+    # nothing may be lost silently: a loop over / a store into something the model does not represent is an error
+    def exec_for(self, s, env, func):
+        it = self.eval(s.iter, env, func)
+        if self.concrete_iter(it) is None:
+            raise AnalysisError("%s: loop over %s, which is not a concrete sequence on the model" % (func.loc(s), show(it)[:80]))
+        saved = self.eval
+        try:
+            self.eval = lambda e, env2, f2, _it=it, _n=s.iter: _it if e is _n else saved(e, env2, f2)
+            return super().exec_for(s, env, func)
+        finally:
+            self.eval = saved
+
+    def assign(self, t, v, env, func):
+        if isinstance(t, ast.Attribute):
+            o = self.eval(t.value, env, func)
+            if not isinstance(o, Obj):
+                raise AnalysisError("%s: attribute store on %s" % (func.loc(t), show(o)[:60]))
+            o.attrs[self.mangle(t.attr, func)] = v
+            return
+        if isinstance(t, ast.Subscript):
+            o = self.eval(t.value, env, func)
+            k = self.eval(t.slice, env, func)
+            if isinstance(k, Bits) and k.is_const():
+                k = k.value()
+            if isinstance(o, dict):
+                try:
+                    o[k] = v
+                except TypeError:
+                    raise Raised("TypeError", t, "unhashable key")
+                return
+            if isinstance(o, list) and isinstance(k, int):
+                try:
+                    o[k] = v
+                except IndexError:
+                    raise Raised("IndexError", t)
+                return
+            raise AnalysisError("%s: item store on %s" % (func.loc(t), show(o)[:60]))
+        return super().assign(t, v, env, func)
+
+    def _comp(self, e, env, func, kind):
+        out = []
+
+        def rec(i, env2):
+            if i == len(e.generators):
+                out.append(self.eval(e.elt, env2, func))
+                return
+            g = e.generators[i]
+            seq = self.concrete_iter(self.eval(g.iter, env2, func))
+            if seq is None:
+                raise AnalysisError("%s: comprehension over a symbolic sequence (%s)" % (func.loc(e), ast.unparse(g.iter)[:60]))
+            for item in seq:
+                env3 = dict(env2)
+                self.assign(g.target, item, env3, func)
+                if all(self.truth(self.eval(c, env3, func), c, func) for c in g.ifs):
+                    rec(i + 1, env3)
+        rec(0, dict(env))
+        return set(out) if kind == "set" else out
 
 
 class Runner:
@@ -372,6 +489,13 @@ class Runner:
             return getattr(base, attr)
         if isinstance(base, Sym) and base.op == "module" and base.args[0] == "collections":
             return Sym("modattr", "collections", attr)
+        if isinstance(base, Obj) and base.cls is not None and attr not in base.attrs:
+            f = base.cls.lookup(attr)
+            if f is not None and any((isinstance(d, ast.Name) and d.id in ("property", "cached_property")) or (isinstance(d, ast.Attribute) and d.attr == "cached_property")
+                                     for d in f.node.decorator_list):
+                return it.call_function(f, [], recv=base)
+            if f is None and base.cls.lookup_attr(attr) is None and base.cls.module is self.ana:
+                raise Raised("AttributeError", None, "'%s' object has no attribute '%s'" % (base.cls.name, attr))
         return NotImplemented
 
     def method_hook(self, it, recv, name, args, kwargs, e, func):
@@ -409,6 +533,9 @@ class Runner:
             r = self.container_method(recv, name, args, kwargs, e, func)
             if r is not NotImplemented:
                 return r[0]
+            if not hasattr(recv, name):
+                raise Raised("AttributeError", e, "'%s' object has no attribute '%s'" % (type(recv).__name__, name))
+            raise AnalysisError("model: %s.%s%s is not modelled (%s)" % (type(recv).__name__, name, show(tuple(args))[:60], func.loc(e)))
         if isinstance(recv, Obj) and recv.cls is not None and recv.cls.lookup(name) is None and name not in recv.attrs:
             a = recv.cls.lookup_attr(name)
             if isinstance(a, ast.Name) and recv.cls.lookup(a.id) is not None:  # class-level alias:  get_class = get_vm_class
@@ -433,8 +560,6 @@ class Runner:
     def hashable(self, k):
         if isinstance(k, Bits) and k.is_const():
             k = k.value()
-        if isinstance(k, (Lin,)):
-            raise AnalysisError("model: linear form used as a key/element: %s" % show(k))
         if isinstance(k, (list, dict, set)):
             raise Raised("TypeError", None, "unhashable")
         if isinstance(k, tuple):
@@ -482,9 +607,19 @@ class Runner:
                 if len(args) > 1:
                     return (args[1],)
                 raise Raised("KeyError", e, show(k))
-            if name == "update" and len(args) == 1 and isinstance(args[0], dict):
-                recv.update(args[0])
+            if name == "update" and len(args) <= 1:
+                if args and isinstance(args[0], dict):
+                    recv.update(args[0])
+                elif args:
+                    for pair in self.seq(args[0]):
+                        if not (isinstance(pair, (tuple, list)) and len(pair) == 2):
+                            raise AnalysisError("model: dict.update with %s" % show(pair)[:60])
+                        recv[H(pair[0])] = pair[1]
+                for k2, v2 in (kwargs or {}).items():
+                    recv[k2] = v2
                 return (None,)
+            if name == "__contains__" and len(args) == 1:
+                return (H(args[0]) in recv,)
             if name == "copy":
                 return (dict(recv),)
         if isinstance(recv, list):
@@ -581,6 +716,33 @@ class Runner:
                 if name in ("set", "frozenset"):
                     xs = [self.hashable(x) for x in xs]
                 return {"list": list, "set": set, "tuple": tuple, "frozenset": frozenset}[name](xs)
+        if name == "map" and len(args) >= 2:
+            seqs = [self.seq(a) for a in args[1:]]
+            return [it.call_value(args[0], None, list(xs), {}, e, {}, func) for xs in zip(*seqs)]
+        if name == "filter" and len(args) == 2:
+            out = []
+            for x in self.seq(args[1]):
+                r = x if args[0] is None else it.call_value(args[0], None, [x], {}, e, {}, func)
+                if it.truth(r, e, func):
+                    out.append(x)
+            return out
+        if name == "sorted" and len(args) == 1 and isinstance(args[0], (list, tuple, set, frozenset, dict)):
+            xs = self.seq(args[0])
+            keyf = (kwargs or {}).get("key")
+            try:
+                ks = [it.call_value(keyf, None, [x], {}, e, {}, func) if keyf is not None else x for x in xs]
+                if not all(isinstance(k, (int, str, tuple)) for k in ks):
+                    raise TypeError
+                order = sorted(range(len(xs)), key=lambda i: ks[i], reverse=bool((kwargs or {}).get("reverse", False)))
+            except TypeError:
+                raise AnalysisError("model: sorted() over values without a concrete order")
+            return [xs[i] for i in order]
+        if name == "next" and args and isinstance(args[0], list):
+            if args[0]:
+                return args[0][0]
+            if len(args) > 1:
+                return args[1]
+            raise Raised("StopIteration", e)
         if name in ("any", "all") and len(args) == 1 and isinstance(args[0], (list, tuple)) and all(isinstance(x, bool) for x in args[0]):
             return any(args[0]) if name == "any" else all(args[0])
         if name == "len" and len(args) == 1 and isinstance(args[0], (list, tuple, set, frozenset, dict, str)):
@@ -796,6 +958,8 @@ class Labeller:
                 return "C:" + inner.name
             if isinstance(inner, Obj) and inner.cls is not None and inner.cls.name == "ExternalClass":
                 return "C:" + str(r.call(inner, "get_name")) + " EXTERNAL"
+            if isinstance(inner, MBase):
+                return "C:<wraps %s>" % inner.label
             raise AnalysisError("snapshot: ClassAnalysis wraps %s" % show(inner)[:60])
         if cn == "MethodAnalysis":
             inner = r.call(o, "get_method")
@@ -803,11 +967,15 @@ class Labeller:
                 return "M:" + inner.label
             if isinstance(inner, Obj) and inner.cls is not None and inner.cls.name == "ExternalMethod":
                 return "M:%s->%s%s EXTERNAL" % (r.call(inner, "get_class_name"), r.call(inner, "get_name"), r.call(inner, "get_descriptor"))
+            if isinstance(inner, MBase):
+                return "M:<wraps %s>" % inner.label
             raise AnalysisError("snapshot: MethodAnalysis wraps %s" % show(inner)[:60])
         if cn == "FieldAnalysis":
             inner = r.call(o, "get_field")
             if isinstance(inner, MField):
                 return "F:" + inner.label
+            if isinstance(inner, MBase):
+                return "F:<wraps %s>" % inner.label
             raise AnalysisError("snapshot: FieldAnalysis wraps %s" % show(inner)[:60])
         if cn == "StringAnalysis":
             return "S:%r" % (r.call(o, "get_orig_value"),)
@@ -987,20 +1155,24 @@ def scenario_bodies():
     for k in INVOKES:
         b += [(k, ("method", "LB;", "foo", ["(I)", "V"]), "internal target"), (k, ("method", "LA;", "m2", PROTO_V), "call into the own class"),
               (k, ("method", EXT, "bar", PROTO_V), "external target"), (k, ("method", "LB;", "inherited", PROTO_V), "method not defined in the internal class"),
-              (k, ("method", "LB;", "foo", ["(I)", "V"]), "second call of the internal target")]
+              (k, ("method", "LB;", "foo", ["(I)", "V"]), "second call of the internal target"),
+              (k, ("method", "LB;", "foo", ["(J)", "V"]), "overload the internal class does not define")]
     S["F2 invoke variants"] = b
     S["F2a invoke on array classes"] = [x for k in INVOKES for x in ((k, ("method", "[LB;", "clone", ["()", "Ljava/lang/Object;"]), "object-array receiver"),
                                                                        (k, ("method", "[I", "clone", ["()", "Ljava/lang/Object;"]), "primitive-array receiver"))]
     X, Y, Z = ("method", "LB;", "foo", ["(I)", "V"]), ("method", "[I", "clone", ["()", "Ljava/lang/Object;"]), ("method", EXT, "bar", PROTO_V)
     S["F2s invoke sequence"] = [(0x6E, X, "1st: internal"), (0x6E, Y, "2nd: primitive-array receiver"), (0x6E, Y, "3rd: same reference again"),
-                                (0x6E, X, "4th: internal again"), (0x71, Z, "5th: external"), (0x71, Z, "6th: same external again"), (0x6E, X, "7th: internal")]
+                                (0x6E, X, "4th: internal again"), (0x71, Z, "5th: external"), (0x71, Z, "6th: same external again"), (0x6E, X, "7th: internal"),
+                                (0x1C, ("type", EXT), "8th: const-class in between"), (0x6E, X, "9th: internal after the const-class"),
+                                (0x22, ("type", "LB;"), "10th: new-instance in between"), (0x71, Z, "11th: external after the new-instance")]
     S["F3 field variants"] = [x for k in FIELD_OPS for x in ((k, ("field", "LA;", "I", "y"), "field of the own class"), (k, ("field", "LB;", "I", "x"), "field of another class"),
                                                               (k, ("field", EXT, "I", "z"), "field that is not defined"))]
     S["F4 class usage"] = [x for k in sorted(_CU) for x in ((k, ("type", "LB;"), "internal class"), (k, ("type", EXT), "external class"),
                                                             (k, ("type", "LA;"), "the class itself"), (k, ("type", "LB;"), "internal class again"))]
-    S["F4a const-class on array types"] = [(0x1C, ("type", "[LB;"), "object array"), (0x1C, ("type", "[I"), "primitive array"), (0x1C, ("type", "[LA;"), "array of the class itself")]
+    S["F4a const-class on array types"] = [(0x1C, ("type", "[LB;"), "object array"), (0x1C, ("type", "[I"), "primitive array"), (0x1C, ("type", "[LA;"), "array of the class itself"),
+                                           (0x1C, ("type", "[[LB;"), "two-dimensional object array"), (0x1C, ("type", "[[I"), "two-dimensional primitive array")]
     S["F5 strings"] = [(0x1A, ("string", "hello"), "const-string"), (0x1B, ("string", "hello"), "jumbo, same string"), (0x1A, ("string", "other"), "other string"),
-                       (0x1A, ("string", "hello"), "same string again")]
+                       (0x1A, ("string", "hello"), "same string again"), (0x1A, ("string", ""), "the empty string"), (0x1B, ("string", "LA;"), "a string equal to the name of the class")]
     return S
 
 
@@ -1101,8 +1273,24 @@ def report_scenario(sink, res, props, func, prop):
     fam = name.split()[0]
     if prop not in props:
         return 0
+    if res.got.raised is not None and fam == "F1" and getattr(res, "per_op", None) is not None:
+        # the all-in-one run raised: one run per opcode tells for which opcodes
+        sink.count("scenarios")
+        sink.count("prescribed_records", sum(len(v) for v in res.exp.records.values()))
+        by_exc = {}
+        n = 0
+        for k, sub in res.per_op:
+            if sub.got.raised is not None:
+                by_exc.setdefault(sub.got.raised.exc, (set(), sub.got.raised))[0].add(k)
+        for exc, (ops, r) in sorted(by_exc.items()):
+            n += 1
+            sink.check("model/F1", "%s raises %s" % (name, exc), False, func, "%s: raises %s for %s" % (name, exc, ops_str(ops)),
+                       "scenario %s: Analysis.create_xref raises %s (%s) for an instruction with opcode %s" % (name, exc, (r.detail or "")[:100], ops_str(ops)), node=r.node)
+        return n
     if res.got.raised is not None:
         r = res.got.raised
+        sink.count("scenarios")
+        sink.count("prescribed_records", sum(len(v) for v in res.exp.records.values()))
         sink.check("model/" + fam, name, False, func, "%s: raises %s" % (name, r.exc),
                    "scenario %s: Analysis.add / create_xref raise %s on the model (%s)" % (name, r.exc, (r.detail or "")[:120]), node=r.node)
         return 1
@@ -1214,10 +1402,14 @@ def _report_aggregated(sink, res, grouped, func, fam):
 
 # ---- F6: multi DEX ------------------------------------------------------------------------------------------------
 def f6_classes():
-    a = [(0x6E, ("method", "LB;", "foo", ["(I)", "V"])), (0x60, ("field", "LB;", "I", "x")), (0x1A, ("string", "hello")), (0x22, ("type", "LB;")),
-         (0x1C, ("type", "LB;")), (0x71, ("method", EXT, "bar", PROTO_V)), (0x59, ("field", "LA;", "I", "y"))]
-    b = [(0x6E, ("method", "LA;", "m2", PROTO_V)), (0x52, ("field", "LA;", "I", "y")), (0x1A, ("string", "hello")), (0x71, ("method", EXT, "bar", PROTO_V)),
-         (0x67, ("field", "LB;", "I", "x")), (0x1B, ("string", "only-in-b"))]
+    """two classes using each other; the k-th instruction of both methods has the same reference *index* in the split
+    layouts (aligned pools) but denotes a different item, so state that is keyed by a per-DEX index shows"""
+    a = [(0x59, ("field", "LA;", "I", "y")), (0x6E, ("method", "LB;", "foo", ["(I)", "V"])), (0x1A, ("string", "only-in-a")), (0x22, ("type", "LB;")),
+         (0x60, ("field", "LB;", "I", "x")), (0x71, ("method", EXT, "bar", PROTO_V)), (0x1A, ("string", "hello")), (0x1C, ("type", "LB;")),
+         (0x6E, ("method", "LB;", "foo", ["(I)", "V"]))]
+    b = [(0x67, ("field", "LB;", "I", "x")), (0x6E, ("method", "LA;", "m2", PROTO_V)), (0x1B, ("string", "only-in-b")), (0x22, ("type", "LA;")),
+         (0x52, ("field", "LA;", "I", "y")), (0x71, ("method", EXT, "bar", PROTO_V)), (0x1A, ("string", "hello")), (0x1C, ("type", EXT)),
+         (0x6E, ("method", "LA;", "m2", PROTO_V))]
     return {"LA;": dict(methods=[("m", PROTO_V, a), ("m2", PROTO_V, [])], fields=[("y", "I")]),
             "LB;": dict(methods=[("foo", ["(I)", "V"], b)], fields=[("x", "I")])}
 
@@ -1332,7 +1524,10 @@ def results(repo):
         runner = Runner(repo)
         out = {"runner": runner, "scenarios": {}, "f6": None}
         for name, body in scenario_bodies().items():
-            out["scenarios"][name] = run_scenario(runner, name, body)
+            res = run_scenario(runner, name, body)
+            if name.startswith("F1 ") and res.got.raised is not None:
+                res.per_op = [(op, run_scenario(runner, name, [(op, ref, tag)])) for op, ref, tag in body]
+            out["scenarios"][name] = res
         out["f6"] = run_f6(runner)
         _CACHE[key] = out
     return _CACHE[key]
